@@ -47,6 +47,28 @@
 //     returned (Go's select serves a ready flow channel with probability >= 1/2 per iteration, and one
 //     service drains the whole backlog), not a clock.
 //
+// FINDING ON THE UNCHANGED TREE (this is why checks/c32/registry.json is deliberately not written)
+//
+//	goldmane/pkg/storage/bucket_ring.go, EmitFlowCollections (the backward walk, "for { c :=
+//	r.maybeBuildFlowCollection(startIndex, endIndex) ... if r.indexBetween(startIndex, endIndex,
+//	r.headIndex) { break } }"): indexBetween is strict on both sides, so when the walk lands exactly
+//	on the head index, i.e. when (len(buckets) - 1 - pushAfter) is a multiple of bucketsToAggregate
+//	and no bucket further back is marked pushed (first emission after start, or only empty windows
+//	behind), the walk is not stopped: it wraps around the ring into the newest buckets and revisits
+//	buckets it has already collected in the same call (pushed flags are only set afterwards, in
+//	FlowCollection.Complete).  Observed consequences: (a) windows that overlap each other and contain
+//	the currently filling / future bucket are handed to the sink, so accepted flows are emitted twice
+//	and before the push delay (violation key emitted-windows-overlap; smallest witness in
+//	checks/c32/witness-emitted-windows-overlap.json: NewBucketRing(26, 5, now, WithPushAfter(1),
+//	WithBucketsToAggregate(4)), one AddFlow, EmitFlowCollections -> windows [..85,..105) and
+//	[..75,..95)); (b) for bucketsToAggregate == 1 (any ring) and for many other combinations the walk
+//	never terminates and allocates without bound (counted here as INCONCLUSIVE
+//	emit-flow-collections-walk-does-not-terminate, see the runaway guard below).  With the daemon's
+//	fixed 242 buckets this is reached by valid settings, e.g. EMIT_AFTER_SECONDS=15..29 with the
+//	default 15 s / 5 m windows (pushIndex 1, 240 % 20 == 0); the defaults (pushIndex 2) are not hit.
+//	Every violation seen on the unchanged tree at seeds 1..5 (quick) and in a 3000-case thorough
+//	sample has (n-1-pushAfter) % bucketsToAggregate == 0; all other configurations are silent.
+//
 // The ring cases are single-threaded and fully replayable.  In the goldmane cases the interleaving of
 // the feeder/query/sink goroutines with the main loop is a real schedule and not replayable; the fed
 // flows, requests and rollover counts are.  Watchdogs -> Inconclusive.
